@@ -91,6 +91,9 @@ impl<'i> Position<'i> {
     { unimplemented!() }
 }
 
+// the tree the generated parser returns for an input (the parser is a deterministic function of the text)
+pub uninterp spec fn parse_tree(inp: Seq<u8>) -> Option<PairG>;
+pub open spec fn parse_tree_is(inp: Seq<u8>, top: PairG) -> bool { parse_tree(inp) == Some(top) }
 pub struct RustParser { pub _p: () }
 impl RustParser {
     // RustParser::parse(Rule::file, code): the generated PEG parser (trusted).  On success exactly one top-level pair
@@ -99,6 +102,8 @@ impl RustParser {
     pub fn parse<'i>(rule: Rule, code: &'i str) -> (r: Result<Pairs<'i>, PestError>)
         ensures r.is_ok() ==> r.unwrap().input() == code.spec_bytes() && r.unwrap().rest().len() == 1
             && r.unwrap().rest()[0].rule == rule && node_ok(r.unwrap().rest()[0], code.spec_bytes())
+            && parse_tree(code.spec_bytes()) == Some(r.unwrap().rest()[0]),
+            r.is_err() ==> parse_tree(code.spec_bytes()).is_none()
     { unimplemented!() }
 }
 
